@@ -491,6 +491,7 @@ def hunt_rules(chk, repo):
     hunt2_rules(chk, repo)
     hunt3_rules(chk, repo)
     hunt4_rules(chk, repo)
+    round6_rules(chk, repo)
     # ---- C19.textsize: a text-mode file's byte size is its payload size only under the same codec (shared with C04) --------------------------
     textsize(chk, repo, "C19.size")
 
@@ -514,6 +515,67 @@ def textsize(chk, repo, rule):
             else:
                 chk.violation(rule + ".newline", r, "return super().size", "None (a text-mode stream cannot promise its encoded length)",
                               "TextIOPayload.size is the on-disk size whenever the codecs agree, but text mode also translates newlines and applies an error handler: a 10-byte CRLF file opened with open(p) writes 8 bytes under `Content-Length: 10` (the peer stalls), with errors='replace' 5 bytes go out under a size of 3; multipart part lengths are wrong the same way")
+
+
+def round6_rules(chk, repo):
+    """Rule written after seeding round 6 (seed C19-6): what the writer leaves unescaped in a percent-encoded Content-Disposition value is
+    nothing the reader gives a meaning.  content_disposition_header() percent-encodes `filename` and `name*=` values with urllib's quote(); the
+    characters quote() passes through are the unreserved ones plus its `safe` argument (default "/").  parse_content_disposition() strips the
+    characters of its `.lstrip(...)` calls from the front of a value and accepts an extended value only if it is a token.  Both tables are
+    constants: the writer's pass-through set must avoid the first and lie inside the second."""
+    from sa.consteval import Folder, NotConst
+    rule = "C19.cd.pct"
+    HL_ = "aiohttp/helpers.py"
+    folder = Folder(repo)
+    hmod = repo.module(HL_)
+    w = repo.func(HL_, "content_disposition_header")
+    pcd = repo.func(MP, "parse_content_disposition")
+    cdf = repo.func(MP, "content_disposition_filename")
+    stripped: set[str] = set()
+    for f in (pcd, cdf):
+        for c in prog.calls_in(f.node):
+            if isinstance(c.func, ast.Attribute) and c.func.attr == "lstrip" and c.args and isinstance(c.args[0], ast.Constant) and isinstance(c.args[0].value, str):
+                stripped |= set(c.args[0].value)
+    try:
+        token = folder.name(hmod, "TOKEN")
+    except NotConst as e:
+        chk.analysis_error(f"{rule}: helpers.TOKEN cannot be folded: {e}")
+        return
+    if not stripped or not isinstance(token, (set, frozenset)):
+        chk.analysis_error(f"{rule}: the reader's tables were not found (lstrip characters: {sorted(stripped)}, TOKEN: {type(token).__name__})")
+        return
+    unreserved = set("ABCDEFGHIJKLMNOPQRSTUVWXYZabcdefghijklmnopqrstuvwxyz0123456789_.-~")
+    partials = {}
+    for a in ast.walk(w.node):
+        if isinstance(a, ast.Assign) and isinstance(a.targets[0], ast.Name) and isinstance(a.value, ast.Call) and norm.raw(a.value.func) in ("functools.partial", "partial") and a.value.args and norm.raw(a.value.args[0]) == "quote":
+            partials[a.targets[0].id] = a.value
+    n = 0
+    for c in prog.calls_in(w.node):
+        fname = norm.raw(c.func)
+        if fname == "quote":
+            pos, kws = list(c.args), {k.arg: k.value for k in c.keywords}
+        elif fname in partials:
+            pc_ = partials[fname]
+            pos, kws = list(pc_.args[1:]) + list(c.args), {**{k.arg: k.value for k in pc_.keywords}, **{k.arg: k.value for k in c.keywords}}
+        else:
+            continue
+        n += 1
+        sv = pos[1] if len(pos) > 1 else kws.get("safe")
+        try:
+            safe = "/" if sv is None else folder.eval(hmod, sv)
+        except NotConst:
+            safe = None
+        if not isinstance(safe, (str, bytes)):
+            chk.violation(rule, c, K.short(c), "quote(val, '', encoding=...)", "the characters this percent-encoding leaves as they are cannot be determined: the reader strips leading `/` and `\\` and takes an extended value only if it is a token")
+            continue
+        passed = unreserved | set(safe if isinstance(safe, str) else safe.decode("latin-1"))
+        bad = sorted((passed & stripped) | (passed - set(token)))
+        if bad:
+            chk.violation(rule, c, K.short(c), "quote(val, '', encoding=_charset)  (safe must be empty)",
+                          f"the writer leaves {''.join(bad)!r} unescaped in a percent-encoded Content-Disposition value (safe={safe!r}" + (", urllib's default" if sv is None else "") + f"), but the reader strips {''.join(sorted(stripped))!r} from the front of a value and refuses an extended value that is not a token: `filename=\"/srv/data/report.bin\"` is read back as `srv/data/report.bin`, and a non-ASCII field name with a `/` (`name*=utf-8''upload/%D1%84`) is dropped, part.name is None")
+        else:
+            chk.ok(rule, c, f"`{K.short(c, 50)}` passes only unreserved characters through: none of {''.join(sorted(stripped))!r}, all of them token characters")
+    chk.expect_count(rule, n, 2, "percent-encodings in content_disposition_header")
 
 
 def hunt4_rules(chk, repo):
